@@ -83,7 +83,7 @@ NzLit(ty, s) == CASE ty = "int" -> [n |-> "int", v |-> <<1, 2, 3, 5, 7, -2>>[Ch(
                   [] OTHER      -> [n |-> "float", v |-> << <<2,1>>, <<1,2>>, <<4,1>> >>[Ch(s, 3)]]
 CapRef(c, s) == [n |-> "cap", p |-> c.p, g |-> Abs(c.g), byname |-> (c.name # "" /\ (c.g < 0 \/ Coin(s, 1, 2))), name |-> c.name]
 
-RECURSIVE GenExpr(_, _, _, _), GenIdx(_, _, _, _)
+RECURSIVE GenExpr(_, _, _, _), GenExprT(_, _, _, _), GenIdx(_, _, _, _), GenCmp(_, _, _)
 
 \* leaf that is not a metric read (keeps index expressions shallow)
 GenLeafNoVar(ty, scope, s) ==
@@ -118,7 +118,18 @@ GenIdx(keys, scope, depth, s) ==
 Bin(op, l, r) == [n |-> "bin", op |-> op, l |-> l, r |-> r]
 Call(f, args) == [n |-> "call", f |-> f, args |-> args]
 
+\* profile "loose" (C04): the type discipline is broken on purpose now and then - an operand of another type, a
+\* comparison used as a number - to reach every shape the checker's coercion rules let through; programs the
+\* compiler rejects are simply not part of C04's domain
+OtherTy(ty, s) == CASE ty = "int" -> IF Coin(s, 1, 2) THEN "float" ELSE "string"
+                    [] ty = "float" -> IF Coin(s, 1, 2) THEN "int" ELSE "string"
+                    [] OTHER -> IF Coin(s, 1, 2) THEN "int" ELSE "float"
 GenExpr(ty, scope, depth, s) ==
+  IF Profile = "loose" /\ Coin(s, 1, 7) THEN
+       (IF Coin(Rnd(s), 1, 3) /\ depth > 0 THEN GenCmp(scope, depth - 1, Rnd(Rnd(s))) ELSE GenExprT(OtherTy(ty, Rnd(s)), scope, depth, Rnd(Rnd(s))))
+  ELSE GenExprT(ty, scope, depth, s)
+
+GenExprT(ty, scope, depth, s) ==
   IF depth = 0 THEN GenLeaf(ty, scope, s) ELSE
   LET s1 == Rnd(s)  s2 == Rnd(s1) IN
   CASE ty = "int" ->
@@ -264,7 +275,7 @@ GenWrite(scope, depth, s) ==          \* an assignment-like statement
   ELSE IF c = 13 THEN \* tm = timestamp()
        G([n |-> "expr", e |-> [n |-> "assign", m |-> "tm", idx |-> <<>>, r |-> Call("timestamp", <<>>)]], s1)
   ELSE                \* settime(int)
-       LET a == GenExpr("int", scope, 0, s1) IN G([n |-> "expr", e |-> Call("settime", <<a.x>>)], a.s)
+       LET a == GenExpr("int", scope, IF Profile = "loose" THEN 1 ELSE 0, s1) IN G([n |-> "expr", e |-> Call("settime", <<a.x>>)], a.s)
 
 GenStrptime(scope, s) ==
   LET s1 == Rnd(s)
@@ -442,7 +453,7 @@ Init == /\ seed \in (IF SeedSet # {} THEN SeedSet ELSE SeedLo..SeedHi)
         /\ LET c == GenCase(seed) IN prog = c.prog /\ lines = c.lines
         /\ ln = 0 /\ mem = InitMem(prog) /\ hist = <<>>
 
-Step == /\ ln < Len(lines)
+Step == /\ ln < Len(lines) /\ Profile # "loose"
         /\ LET r == ExecLine(prog, mem, lines[ln + 1].toks, lines[ln + 1].file, ln + 1) IN
            /\ mem' = [m |-> r.m, memo |-> r.memo]
            /\ hist' = Append(hist, [m |-> r.m, err |-> r.err, ovf |-> r.ovf])
@@ -458,7 +469,7 @@ MemoFree == ln < Len(lines) =>
                   b == ExecLine(prog, [mem EXCEPT !.memo = <<>>], lines[ln + 1].toks, lines[ln + 1].file, ln + 1)
               IN a.m = b.m /\ a.err = b.err
 
-Emit == (ln = Len(lines)) =>
+Emit == (ln = Len(lines) \/ Profile = "loose") =>
           PrintT(<<"CASE", ToJson([seed |-> seed, profile |-> Profile, prog |-> prog, lines |-> lines, exp |-> hist,
                                    mt |-> [p \in 1..Len(prog.pats) |-> [l \in 1..Len(lines) |-> Match(prog.pats[p], lines[l].toks)]]])>>)
 =============================================================================
